@@ -8,6 +8,7 @@ import (
 	"os"
 	"os/exec"
 	"regexp"
+	"runtime"
 	"sort"
 	"strings"
 	"sync"
@@ -43,6 +44,7 @@ type c14Result struct {
 	ID       int    `json:"id"`
 	Mismatch string `json:"mismatch,omitempty"`
 	Panic    string `json:"panic,omitempty"`
+	Stuck    string `json:"stuck,omitempty"`
 }
 
 func init() {
@@ -161,28 +163,56 @@ func c14RunRace(c *Ctx, scenarios []c14Scenario) error {
 	if out, err := build.CombinedOutput(); err != nil {
 		return fmt.Errorf("building the race-detector driver: %v: %s", err, trunc(string(out), 800))
 	}
-	in, _ := json.Marshal(scenarios)
-	cmd := exec.Command(bin, "worker", "c14")
-	cmd.Stdin = bytes.NewReader(in)
-	cmd.Env = append(os.Environ(), "GORACE=halt_on_error=0 exitcode=0")
 	var stdout, stderr bytes.Buffer
-	cmd.Stdout, cmd.Stderr = &stdout, &stderr
-	done := make(chan error, 1)
-	go func() { done <- cmd.Run() }()
 	crashed := false
-	select {
-	case err := <-done:
-		if err != nil {
-			// the Go runtime aborts the process on an unsynchronised concurrent map access it notices
-			// itself: that is a verdict, not a tooling failure
-			if !strings.Contains(stderr.String(), "fatal error: concurrent map") && !strings.Contains(stderr.String(), "WARNING: DATA RACE") {
-				return fmt.Errorf("race worker: %v: %s", err, trunc(stderr.String(), 800))
-			}
-			crashed = true
+	stuck := 0
+	deadline := time.After(60 * time.Minute)
+	for remaining := scenarios; len(remaining) > 0; {
+		in, _ := json.Marshal(remaining)
+		cmd := exec.Command(bin, "worker", "c14")
+		cmd.Stdin = bytes.NewReader(in)
+		cmd.Env = append(os.Environ(), "GORACE=halt_on_error=0 exitcode=0")
+		var so, se bytes.Buffer
+		cmd.Stdout, cmd.Stderr = &so, &se
+		done := make(chan error, 1)
+		go func() { done <- cmd.Run() }()
+		var err error
+		select {
+		case err = <-done:
+		case <-deadline:
+			cmd.Process.Kill()
+			return fmt.Errorf("race worker timed out")
 		}
-	case <-time.After(40 * time.Minute):
-		cmd.Process.Kill()
-		return fmt.Errorf("race worker timed out")
+		stdout.Write(so.Bytes())
+		stderr.Write(se.Bytes())
+		if err == nil {
+			break
+		}
+		// a scenario that never finished (deadlock): the worker reported it and left; go on after it
+		if i := strings.LastIndex(se.String(), "@@SCENARIO "); i >= 0 && strings.Contains(se.String()[i:], " STUCK") {
+			var id int
+			fmt.Sscanf(se.String()[i:], "@@SCENARIO %d STUCK", &id)
+			next := len(remaining)
+			for j, s := range remaining {
+				if s.ID == id {
+					next = j + 1
+				}
+			}
+			remaining = remaining[next:]
+			if stuck++; stuck >= 3 {
+				// enough for a verdict; every further one costs the full limit
+				crashed = true
+				break
+			}
+			continue
+		}
+		// the Go runtime aborts the process on an unsynchronised concurrent map access it notices
+		// itself: that is a verdict, not a tooling failure
+		if !strings.Contains(se.String(), "fatal error: concurrent map") && !strings.Contains(se.String(), "WARNING: DATA RACE") {
+			return fmt.Errorf("race worker: %v: %s", err, trunc(se.String(), 800))
+		}
+		crashed = true
+		break
 	}
 	// results
 	results := map[int]c14Result{}
@@ -253,6 +283,10 @@ func c14RunRace(c *Ctx, scenarios []c14Scenario) error {
 			cas["race_report"] = trunc(rs[0], 3000)
 			c.Fail("race:"+raceSig(rs[0]), fmt.Sprintf("data race while running %s: %s", c14Desc(s), raceSig(rs[0])), cas)
 		}
+		if r.Stuck != "" {
+			c.Fail("stuck:"+s.Kind, fmt.Sprintf("%s: did not finish within %s (goroutines blocked)", c14Desc(s), c14ScenarioLimit), map[string]interface{}{"scenario": s, "stacks": trunc(r.Stuck, 4000)})
+			continue
+		}
 		if r.Panic != "" {
 			c.Fail("concurrent-panic:"+s.Kind, fmt.Sprintf("%s: panic %s", c14Desc(s), r.Panic), cas)
 		}
@@ -304,10 +338,24 @@ func c14Worker(args []string) int {
 	for _, s := range scenarios {
 		fmt.Fprintf(os.Stderr, "@@SCENARIO %d BEGIN\n", s.ID)
 		var r c14Result
-		if s.Kind == "ops" {
-			r = c14RunOps(s)
-		} else {
-			r = c14RunExec(s)
+		done := make(chan c14Result, 1)
+		go func(s c14Scenario) {
+			if s.Kind == "ops" {
+				done <- c14RunOps(s)
+			} else {
+				done <- c14RunExec(s)
+			}
+		}(s)
+		select {
+		case r = <-done:
+		case <-time.After(c14ScenarioLimit):
+			// blocked goroutines cannot be recovered: report, dump the stacks and leave; the driver
+			// starts another worker for the scenarios after this one
+			buf := make([]byte, 1<<16)
+			buf = buf[:runtime.Stack(buf, true)]
+			out.Encode(c14Result{ID: s.ID, Stuck: string(buf)})
+			fmt.Fprintf(os.Stderr, "@@SCENARIO %d STUCK\n", s.ID)
+			return 3
 		}
 		r.ID = s.ID
 		time.Sleep(2 * time.Millisecond)
@@ -316,6 +364,9 @@ func c14Worker(args []string) int {
 	}
 	return 0
 }
+
+// a scenario takes a few seconds under the race detector
+const c14ScenarioLimit = 60 * time.Second
 
 const c14Tmpl = `<% let n = x %><%= for (i, v) in [1, 2] { %><%= v %><%= x %><% } %>|<%= n %>|<%= if (zz) { %>a<% } else { %>b<% } %>`
 const c14Want = `1X2X|X|b`
@@ -361,6 +412,9 @@ func c14RunOps(s c14Scenario) (res c14Result) {
 					case "value_shared":
 						parent.Value("k")
 						parent.Has("k")
+						// names the context does not bind itself: the lookup goes past its own map
+						parent.Has("nosuch")
+						parent.Value("nosuch")
 					case "new_shared":
 						parent.New()
 					case "set_own":
